@@ -1713,9 +1713,9 @@ def unit_validate(cfg):
 # to the OTHER object afterwards is history.
 
 CLONE_OPS = {0: "fresh instance configured and evaluated",
-             4: "configured, cloned; the CLONE is re-configured (setParam value/width/npts/nsigmas) and "
-                "evaluated; the ORIGINAL is evaluated",
-             5: "configured, cloned; the ORIGINAL is re-configured and evaluated; the CLONE is evaluated"}
+             4: "configured, cloned; the CLONE is re-configured (setParam value/width/npts/nsigmas); "
+                "the ORIGINAL is evaluated",
+             5: "configured, cloned; the ORIGINAL is re-configured; the CLONE is evaluated"}
 
 
 def clone_reqs(info, dim, disp):
@@ -1745,7 +1745,6 @@ def clone_history(Model, op, req, mut, q, entry, W=None):
                         ("history:evaluated.dispersion", twin.dispersion, purity.snapshot(twin.dispersion))]
     other, evaluated = (twin, m) if op == 4 else (m, twin)
     sasview_set(other, mut)
-    sasview_request(other, mut, q, entry)
     return evaluated
 
 
@@ -1802,18 +1801,20 @@ def real_clone(name, entry, req, mut, q, ops=(0, 4, 5)):
     outs, errs, changed = [], [], {}
     qv = [np.asarray(v, dtype=float) for v in q]
     for op in ops:
-        Model = sasview_model._make_standard_model(name)
-        W = Watch()
-        try:
-            m = clone_history(Model, op, req, mut, [1.5 * v for v in qv], entry, W)
-            outs.append(bits(sasview_request(m, req, qv, entry)))
-            errs.append(None)
-        except Exception as e:
-            outs.append(("raise:" + type(e).__name__).encode())
-            errs.append(repr(e))
-        for lab, phi, diffs, _l in W.check():
-            if not z3.is_true(z3.simplify(phi)):
-                changed.setdefault(lab, []).extend(["op %d: %s" % (op, d) for d in diffs[:3]])
+        for fill in (3.25, 17.5):           # two contents of the uninitialised kernel buffers
+            Model = sasview_model._make_standard_model(name)
+            W = Watch()
+            try:
+                with heap_content(fill):
+                    m = clone_history(Model, op, req, mut, [1.5 * v for v in qv], entry, W)
+                    outs.append(bits(sasview_request(m, req, qv, entry)))
+                errs.append(None)
+            except Exception as e:
+                outs.append(("raise:" + type(e).__name__).encode())
+                errs.append(repr(e))
+            for lab, phi, diffs, _l in W.check():
+                if not z3.is_true(z3.simplify(phi)):
+                    changed.setdefault(lab, []).extend(["op %d: %s" % (op, d) for d in diffs[:3]])
     return outs, errs, changed
 
 
